@@ -105,6 +105,11 @@ impl Heap {
         requires loc <= self.bytes().len()
         ensures r@ == self.bytes().skip(loc as int), slice_addr(r) == self.base() + loc, self.base() % 8 == 0, self.base() >= 0,
                 self.base() + self.bytes().len() + 16 <= usize::MAX { unimplemented!() }
+    // Heap::pstr_tail_idx, by its contract (proved against the real body in unit heap: Heap_pstr_tail_idx)
+    #[verifier::external_body]
+    pub fn pstr_tail_idx(z: usize) -> (r: usize)
+        requires z < usize::MAX
+        ensures r == z as int / 8 + (if (z as int + 1) % 8 == 0 { 2int } else { 1int }) { unimplemented!() }
 }
 // &str over a byte slice and its character iterator (TRUSTED UTF-8 facts: a character occupies 1..4 bytes,
 // NUL is the single byte 0, no other character starts with byte 0)
